@@ -87,7 +87,7 @@ s = s[:i] + "## 8. Seeded changes and which checks catch them\n\n" + \
     "Round 5 (`Cxx_r5mK`, 'corner configurations': a 1-6 line oversight in a branch that only a corner configuration exercises - dimension 1 or 3, " \
     "hyper-networks, separable networks with time, non-cartesian batches, per-facet dictionaries, observed parameters, user tables, validation " \
     "modules with their own generators, array-valued masks and weights): at first 25 of 60 were not reported by the check of their own property, 15 of " \
-    "them by no check (6 of those exit 2). New obligations are listed at the end of section 3; one change is not decided (a float32 cast, see section 6); " \
+    "them by no check (5 of those exit 2). New obligations are listed at the end of section 3; one change is not decided (a float32 cast, see section 6); " \
     "one more defect of the unmodified tree was repaired (b0294ed).\n\n" + \
     tab + "\n\nOne candidate was dropped: `C16_m3` (`i <= start_iter` -> `i < start_iter` in `rar_step_false`). It was produced against " \
     "the tree before repair fc78006; on the repaired tree the period counter equals `update_every - 1` at `start_iter`, a non-step at " \
